@@ -181,6 +181,13 @@ func checkC39(c c39Case) (o vstat.Outcome) {
 		return
 	}
 	before, _ := os.ReadFile(path)
+	if c.State == "pem-public" || c.State == "pem-unknown" {
+		// a PEM block of another type is an error for the private-key parser, not "no key here"
+		if k, perr := keypem.ParsePrivKeyPem(before); perr == nil {
+			o.V = vstat.Viol("wrong-pem-type-not-an-error", "file state %q: ParsePrivKeyPem returned (%v, nil) for a PEM block that is not a private key", c.State, k)
+			return
+		}
+	}
 	o.V = vstat.Guard("OpenOrWritePrivKey", func() *vstat.Violation {
 		var first peer.ID
 		for i := 0; i < c.Calls; i++ {
